@@ -571,6 +571,11 @@ func checkLibraryBounds(w *core.World, r *core.Report, rule string, reach map[*s
 				r.OK(rule, fmt.Sprintf("%s: %s (frame number parameter)", core.QName(fn), s.Kind), s.Instr.Pos(), why)
 				continue
 			}
+			if why, ok := fieldIndexParamFromCallers(w, lf, fn, s); ok {
+				nOK++
+				r.OK(rule, fmt.Sprintf("%s: %s (field of the receiver indexed by a parameter, proved at every call site)", core.QName(fn), s.Kind), s.Instr.Pos(), why)
+				continue
+			}
 			if why, ok := paramLenFromCallers(w, lf, fn, s); ok {
 				nOK++
 				r.OK(rule, fmt.Sprintf("%s: %s (length of a parameter, proved at every call site)", core.QName(fn), s.Kind), s.Instr.Pos(), why)
@@ -1134,4 +1139,123 @@ func paramLenFromCallers(w *core.World, lf *libFacts, fn *ssa.Function, s core.B
 		}
 	}
 	return fmt.Sprintf("len(%s) >= %d proved at all %d call site(s)", p.Name(), need, len(sites)), true
+}
+
+// fieldIndexParamFromCallers: `recv.F[p]` in an unexported method all of whose call sites are known,
+// where p is an integer parameter and recv the receiver: the helper that results from moving a loop
+// or a step out of a method. The index is proved at every call site against a load of the same
+// field of the value passed as receiver, provided nothing can store to a field of that name between
+// that load and the call (no store, no call), and the helper loads the field before it calls or
+// stores anything itself. The proof at the call site uses the same checked invariants.
+func fieldIndexParamFromCallers(w *core.World, lf *libFacts, fn *ssa.Function, s core.BoundsSite) (string, bool) {
+	var x, idx ssa.Value
+	switch t := s.Instr.(type) {
+	case *ssa.IndexAddr:
+		x, idx = t.X, t.Index
+	case *ssa.Index:
+		x, idx = t.X, t.Index
+	default:
+		return "", false
+	}
+	p, ok := idx.(*ssa.Parameter)
+	if !ok || fn.Signature.Recv() == nil || len(fn.Params) == 0 {
+		return "", false
+	}
+	ld, ok := x.(*ssa.UnOp)
+	if !ok || ld.Op != token.MUL {
+		return "", false
+	}
+	fa, ok := ld.X.(*ssa.FieldAddr)
+	if !ok || fa.X != ssa.Value(fn.Params[0]) {
+		return "", false
+	}
+	// the helper's load precedes every call and store of the helper on the way from its entry
+	if hit, _ := core.Reach(core.Entry(fn), func(in ssa.Instruction) bool {
+		if in == ssa.Instruction(ld) {
+			return false
+		}
+		switch in.(type) {
+		case *ssa.Store, *ssa.MapUpdate:
+			return true
+		case ssa.CallInstruction:
+			return !pureBuiltinCall(in.(ssa.CallInstruction))
+		}
+		return false
+	}, core.NewCut().AddInstr(ld)); hit != nil {
+		return "", false
+	}
+	sites, escapes := staticCallSites(w, fn)
+	if escapes || len(sites) == 0 {
+		return "", false
+	}
+	pi := paramIndex(p)
+	for _, c := range sites {
+		args := core.CallArgs(c)
+		if pi < 1 || pi >= len(args) {
+			return "", false
+		}
+		recv := args[0]
+		caller := c.Parent()
+		proved := false
+		for _, in := range allInstrs(caller) {
+			l2, ok := in.(*ssa.UnOp)
+			if !ok || l2.Op != token.MUL {
+				continue
+			}
+			fa2, ok := l2.X.(*ssa.FieldAddr)
+			if !ok || fa2.Field != fa.Field || fa2.X != recv || !core.InstrDominates(l2, c.(ssa.Instruction)) {
+				continue
+			}
+			// nothing between the load and the call can change the field
+			if hit, _ := core.Reach(core.After(l2), func(in ssa.Instruction) bool {
+				danger := false
+				switch t := in.(type) {
+				case *ssa.Store:
+					if f2, ok := t.Addr.(*ssa.FieldAddr); ok && f2.Field == fa.Field {
+						danger = true
+					}
+				case ssa.CallInstruction:
+					danger = in != c.(ssa.Instruction) && !pureBuiltinCall(t)
+				}
+				if !danger {
+					return false
+				}
+				// only what lies between the load and the call matters
+				back, _ := core.Reach(core.After(in), core.IsInstr(c.(ssa.Instruction)), nil)
+				return back != nil
+			}, core.NewCut().AddInstr(c.(ssa.Instruction))); hit != nil {
+				continue
+			}
+			bd := core.NewBounds(caller, intBits(w))
+			lf.install(bd)
+			if bs := bd.ProveIndexAt(c.(ssa.Instruction), l2, args[pi]); bs.OK {
+				proved = true
+				break
+			}
+		}
+		if !proved {
+			return "", false
+		}
+	}
+	return fmt.Sprintf("0 <= %s < len(receiver.%s) proved at all %d call site(s)", p.Name(), fieldNameOf(fa), len(sites)), true
+}
+
+func fieldNameOf(fa *ssa.FieldAddr) string {
+	if pt, ok := fa.X.Type().Underlying().(*types.Pointer); ok {
+		if st, ok := pt.Elem().Underlying().(*types.Struct); ok && fa.Field < st.NumFields() {
+			return st.Field(fa.Field).Name()
+		}
+	}
+	return fmt.Sprintf("field#%d", fa.Field)
+}
+
+// pureBuiltinCall: len, cap and the logging calls cannot store to a field of a library object.
+func pureBuiltinCall(c ssa.CallInstruction) bool {
+	if b, ok := c.Common().Value.(*ssa.Builtin); ok {
+		switch b.Name() {
+		case "len", "cap":
+			return true
+		}
+	}
+	return false
 }
